@@ -21,6 +21,9 @@ pub struct Case {
     pub role: Role,
     pub limit: u16,
     pub ops: Vec<Op>,
+    /// v5: the peer announces a Maximum Packet Size of 64 bytes (sends above it fail locally)
+    #[serde(default)]
+    pub peer_max: bool,
 }
 
 fn fail(c: &Case, rule: &str, detail: String) -> Failure {
@@ -120,7 +123,7 @@ fn check_ids(c: &Case, w: &World) -> Result<(), Failure> {
 }
 
 pub async fn run_case(c: Case) -> Result<CaseInfo, Failure> {
-    let mut w = World::start(c.role, c.limit, LimitHow::Config, 0).await.map_err(|f| fail(&c, "harness-handshake", f.detail))?;
+    let mut w = World::start_with(c.role, c.limit, LimitHow::Config, 0, c.peer_max.then_some(64)).await.map_err(|f| fail(&c, "harness-handshake", f.detail))?;
     w.flavor = true;
     let mut local_failure = false;
     let mut two_outstanding_at_ack = false;
@@ -288,8 +291,8 @@ fn op_strategy() -> BoxedStrategy<Op> {
 }
 
 fn case_strategy(role: Role) -> BoxedStrategy<Case> {
-    (2u16..6, prop::collection::vec(op_strategy(), 2..16), any::<bool>())
-        .prop_map(move |(limit, mut ops, with_dev)| {
+    (2u16..6, prop::collection::vec(op_strategy(), 2..16), any::<bool>(), any::<bool>())
+        .prop_map(move |(limit, mut ops, with_dev, peer_max)| {
             if !with_dev {
                 ops.retain(|o| !matches!(o, Op::AckDev(_)));
             } else {
@@ -305,7 +308,7 @@ fn case_strategy(role: Role) -> BoxedStrategy<Case> {
                     true
                 });
             }
-            Case { role, limit, ops }
+            Case { role, limit, ops, peer_max: peer_max && role.is_v5() }
         })
         .boxed()
 }
@@ -330,7 +333,7 @@ fn deviation_matrix() -> Vec<Case> {
                         ops.push(Op::Ack { n: pos as u8, batch: pos == 2 });
                     }
                     ops.push(Op::AckDev(Dev::WrongType(t)));
-                    out.push(Case { role, limit: 5, ops: ops.clone() });
+                    out.push(Case { role, limit: 5, ops: ops.clone(), peer_max: false });
                     // second leg of QoS 2: wrong type instead of PUBCOMP
                     if kind == SendKind::Qos2 {
                         let mut ops2 = ops.clone();
@@ -338,7 +341,7 @@ fn deviation_matrix() -> Vec<Case> {
                         ops2.push(Op::Ack { n: 1, batch: false });
                         ops2.push(Op::Release(0));
                         ops2.push(Op::AckDev(Dev::WrongType(t)));
-                        out.push(Case { role, limit: 5, ops: ops2 });
+                        out.push(Case { role, limit: 5, ops: ops2, peer_max: false });
                     }
                 }
             }
@@ -347,8 +350,19 @@ fn deviation_matrix() -> Vec<Case> {
                     role,
                     limit: 5,
                     ops: vec![Op::Send { kind, again: false, own_id: 0 }, Op::Send { kind: SendKind::Qos1, again: false, own_id: 0 }, Op::Ack { n: 1, batch: false }, Op::AckDev(dev)],
+                    peer_max: false,
                 });
-                out.push(Case { role, limit: 5, ops: vec![Op::Send { kind, again: false, own_id: 0 }, Op::Send { kind: SendKind::Qos1, again: false, own_id: 0 }, Op::AckDev(dev)] });
+                out.push(Case { role, limit: 5, ops: vec![Op::Send { kind, again: false, own_id: 0 }, Op::Send { kind: SendKind::Qos1, again: false, own_id: 0 }, Op::AckDev(dev)], peer_max: false });
+            }
+        }
+        // a send of every kind failing for every local cause (over-long topic, over-long user property, over the peer's maximum), then traffic
+        for kind in [SendKind::Qos0, SendKind::Qos1, SendKind::Qos2, SendKind::Subscribe, SendKind::Unsubscribe] {
+            if role.is_server() && matches!(kind, SendKind::Subscribe | SendKind::Unsubscribe) {
+                continue;
+            }
+            for how in 0..3u8 {
+                let q1 = Op::Send { kind: SendKind::Qos1, again: false, own_id: 0 };
+                out.push(Case { role, limit: 5, ops: vec![q1, Op::SendBad { kind, how }, q1, Op::Ack { n: 2, batch: false }, q1, Op::Ack { n: 1, batch: false }], peer_max: role.is_v5() });
             }
         }
         // a streamed publish that fails to start, then the handle is used / dropped, then ordinary traffic
@@ -359,13 +373,13 @@ fn deviation_matrix() -> Vec<Case> {
                     let mut ops = vec![q1, Op::StreamStart { qos, declared: 3, bad }];
                     ops.extend(tail);
                     ops.extend([q1, Op::Send { kind: SendKind::Qos2, again: false, own_id: 0 }, Op::Ack { n: 3, batch: false }]);
-                    out.push(Case { role, limit: 5, ops });
+                    out.push(Case { role, limit: 5, ops, peer_max: false });
                 }
             }
         }
         // unsolicited acknowledgements with nothing outstanding
         for t in [4u8, 5, 7, 9, 11] {
-            out.push(Case { role, limit: 3, ops: vec![Op::AckDev(Dev::WrongType(t))] });
+            out.push(Case { role, limit: 3, ops: vec![Op::AckDev(Dev::WrongType(t))], peer_max: false });
         }
     }
     out
@@ -373,7 +387,7 @@ fn deviation_matrix() -> Vec<Case> {
 
 /// packet identifiers across the 65535 -> 1 wrap with a window of 3
 async fn wrap_run(role: Role) -> Result<CaseInfo, Failure> {
-    let c = Case { role, limit: 3, ops: Vec::new() };
+    let c = Case { role, limit: 3, ops: Vec::new(), peer_max: false };
     let mut w = World::start(role, 3, LimitHow::Config, 0).await.map_err(|f| fail(&c, "harness-handshake", f.detail))?;
     let total = 65_545usize;
     let mut sent = 0usize;
@@ -457,7 +471,7 @@ pub fn run(ctx: &Ctx, started: Instant) -> i32 {
         level: "exploration",
         rule: format!(
             "deviation matrix ({} cases): every send kind x every acknowledgement type at positions 0..2 (also for the second QoS 2 leg), wrong id / duplicate / reordered / unsolicited acknowledgements; one run of 65545 automatic packet ids with window 3 \
-             across the 65535->1 wrap per role; proptest histories of 2..15 ops: sends of QoS1/QoS2/subscribe/unsubscribe with automatic or caller-chosen ids 1..3 (collisions), locally failing sends (70000-byte topic), acks singly/batched with generated v5 contents \
+             across the 65535->1 wrap per role; proptest histories of 2..15 ops: sends of QoS1/QoS2/subscribe/unsubscribe with automatic or caller-chosen ids 1..3 (collisions), locally failing sends (70000-byte topic or filter, 66000-byte user property, v5: packet above the peer's Maximum Packet Size of 64), acks singly/batched with generated v5 contents \
              (reason codes, reason strings, user properties, SUBACK lists), at most one deviation, releases and receipt drops. Oracle: a future resolves Ok only after a non-deviating acknowledgement of the right type and id was sent, and returns its contents; \
              outstanding ids non-zero and distinct; a deviation yields exactly one Stop(Protocol) and resolves every pending future; a correct peer completes everything on the wire, keeps the connection and restores credit(), also after local failures. \
              Non-trivial = >=2 requests outstanding at an ack, a deviation, a local failure followed by acknowledged traffic, or the wrap run; distinct = (role, op trace)",
